@@ -3,7 +3,7 @@
 # passes (82), demo FAILs with the change and PASSes without.  Writes a log; prints a summary.
 # usage: confirm_seeded.sh <ID> <k>
 ID=$1; K=$2
-WT=/tmp/wt-$ID; O=$WT/_out/$K; LOG=$O/confirm.log
+WT=${WTROOT:-/tmp/wt}-$ID; O=$WT/_out/$K; LOG=$O/confirm.log
 cd $WT || exit 9
 git checkout -q -- . ; : > $LOG
 git apply --check $O/patch.diff >> $LOG 2>&1 || { echo "$ID/$K: patch does not apply"; exit 1; }
